@@ -572,12 +572,12 @@ func c04LoopGen(c *gen.Ctx) {
 	// the process's stdin keeps exec.Cmd.Wait (and with it the closing of the runner's side of stdout)
 	// from returning; the 20 s response time-out fires instead and the run fails with an error.  The
 	// clean variant is op "inrun"; here one scenario at the end of the run and one in its middle
-	// (each waits for the time-out, in parallel with "closeout"), more in the thorough tier.
+	// (each waits for the time-out, in parallel with "closeout"), 16 more per seed in the thorough tier.
 	allMarked := []string{"rk", "wf", "rk"} // whichever case is left unanswered, it is marked
 	addX(c04LoopIn{Layout: 1, MaxServers: 1, Cases: allMarked, K: 2, Stop: "readexit0", Unanswered: 1, Quiet: r.Bool()})
 	addX(c04LoopIn{Layout: 2, MaxServers: 1, Cases: allMarked, K: r.Range(0, 3), Stop: gen.Pick(r, []string{"readexit0", "readexit3"}), Unanswered: 1})
 	if c.Thorough() {
-		for i := 0; i < 40; i++ {
+		for i := 0; i < 16; i++ {
 			layout := r.Range(1, 3)
 			cs := make([]string, r.Range(1, 4))
 			for j := range cs {
@@ -610,7 +610,7 @@ func c04LoopGen(c *gen.Ctx) {
 	tampers := []string{"dup", "codec", "compression", "method"}
 	fbScenario := func(i int) c04LoopIn {
 		n := r.Range(2, 3)
-		in := c04LoopIn{Layout: gen.Pick(r, []int{1, 1, 2}), MaxServers: gen.Pick(r, []int{1, 4}), K: -1, Stop: "serve", Quiet: r.Bool()}
+		in := c04LoopIn{Layout: gen.Pick(r, []int{1, 1, 1, 2}), MaxServers: gen.Pick(r, []int{1, 4}), K: -1, Stop: "serve", Quiet: r.Bool()}
 		for j := 0; j < n; j++ {
 			cl := oddClasses[(i+j)%len(oddClasses)]
 			name := ""
@@ -630,7 +630,7 @@ func c04LoopGen(c *gen.Ctx) {
 		}
 		return in
 	}
-	nFb := 2 * len(oddClasses)
+	nFb := len(oddClasses) + 2
 	if c.Thorough() {
 		nFb = 80
 	}
